@@ -6,6 +6,10 @@
 //!  (ii)  no operation on a handle succeeds when it was called after a successful close of the handle or of
 //!        its archive had returned; no operation fails on a handle nobody had started closing;
 //!  (iii) live handle ids are unique across the three tables.
+//!  (iv)  one extra thread mutates a shared writable archive (add / replace / remove / rename / flush / compact) and drives a
+//!        shadow `MutableArchive` on a byte-identical copy in lock-step; the other threads ask for existence, contents,
+//!        extraction, verification and listings of that archive. Every answer must be the one the Rust API gives in one of the
+//!        states between "mutations that had returned when the call was made" and "mutations that had been called when it returned".
 //! A run in which no call completes for the stall period is a deadlock witness (in-flight calls are dumped).
 
 use serde_json::{Value, json};
@@ -14,6 +18,8 @@ use std::ffi::{CStr, CString, c_char, c_void};
 use std::path::PathBuf;
 use std::ptr;
 use std::sync::atomic::{AtomicI64, AtomicU64, AtomicUsize, Ordering};
+use wow_mpq::compression::CompressionMethod;
+use wow_mpq::{AddFileOptions, MutableArchive};
 use std::sync::{Arc, Barrier, Mutex};
 use std::time::{Duration, Instant};
 use vh_common::{Case, Rng, Run, fnv64};
@@ -211,6 +217,16 @@ impl Ctx {
     fn find_close(&self, id: usize) -> bool {
         self.call("SFileFindClose", id, 0, 0, "", || unsafe { SFileFindClose(hh(id)) }, |ok| (*ok, 0, [0; 8]))
     }
+    /// call / return time of the call this thread logged last
+    fn last_times(&self) -> (u64, u64) {
+        self.sh.logs[self.th as usize].lock().unwrap().last().map(|e| (e.t0, e.t1)).unwrap_or((0, 0))
+    }
+    /// a call that answers true / false; returns the answer with its call / return time
+    fn callb(&self, func: &'static str, h: usize, a: i64, name: &str, f: impl FnOnce() -> bool) -> (bool, u64, u64) {
+        let ok = self.call(func, h, a, 0, name, f, |ok| (*ok, 0, [0; 8]));
+        let (t0, t1) = self.last_times();
+        (ok, t0, t1)
+    }
     fn canary(&self, b: &Guarded, func: &str) {
         let (f, bk) = b.damage();
         if f + bk > 0 {
@@ -256,6 +272,297 @@ struct World {
     shared_find: usize,
     s_names: Arc<Vec<String>>,
     a_names: Arc<Vec<String>>,
+    mleg: Option<Arc<MutLeg>>,
+}
+
+// ------------------------------------------------------------------ mutation racing with reads ----
+
+/// What the Rust API says about one name of the writable archive in one state of it.
+#[derive(Clone, PartialEq)]
+struct NameState {
+    exists: bool,                 // MutableArchive::find_file
+    inner: bool,                  // the read-only view behind it (what the verifying calls consult)
+    data: Option<Arc<Vec<u8>>>,   // MutableArchive::read_file (None: it fails)
+}
+
+struct MutState {
+    names: Vec<NameState>,
+    listed: Vec<String>, // MutableArchive::list(), sorted
+}
+
+struct MutObs {
+    th: u32,
+    what: &'static str, // has | open | extract | verify | find
+    name: usize,
+    t0: u64,
+    t1: u64,
+    ok: bool,
+    data: Option<Vec<u8>>,
+    listed: Option<Vec<String>>,
+}
+
+struct MutLeg {
+    arch: usize,
+    names: Vec<String>,
+    /// states[j]: the answers of the Rust API after j mutations of the run (0: after the set-up)
+    states: Mutex<Vec<MutState>>,
+    /// call / return time of mutation j + 1 through the C API, and what it was
+    windows: Mutex<Vec<(u64, u64, String)>>,
+    obs: Mutex<Vec<MutObs>>,
+}
+
+const MX_STABLE: usize = 4; // names[0..4]: never touched after the set-up
+const MX_TOUCHED: usize = 3; // names[4..7]: replaced, removed, added again, renamed to names[7..9] and back
+const MX_SRC: [usize; 4] = [2, 3, 1, 0]; // src<k>.dat behind the stable names
+
+fn mx_names() -> Vec<String> {
+    ["mx\\s0.dat", "mx\\s1.dat", "mx\\s2.dat", "mx\\s3.dat", "mx\\t0.dat", "mx\\t1.dat", "mx\\t2.dat", "mx\\t0.ren", "mx\\t1.ren", "mx\\n0.dat", "mx\\n1.dat", "mx\\never.dat"].iter().map(|s| s.to_string()).collect()
+}
+
+fn add_opts(flags: u32, comp: u32) -> AddFileOptions {
+    let mut o = AddFileOptions::new().compression(match comp {
+        0 => CompressionMethod::None,
+        0x10 => CompressionMethod::BZip2,
+        _ => CompressionMethod::Zlib,
+    });
+    if flags & 0x0001_0000 != 0 {
+        o = o.encrypt();
+    }
+    if flags & 0x8000_0000 != 0 {
+        o = o.replace_existing(true);
+    }
+    o
+}
+
+fn mx_snapshot(m: &mut MutableArchive, names: &[String]) -> MutState {
+    let names = names
+        .iter()
+        .map(|n| NameState { exists: matches!(m.find_file(n), Ok(Some(_))), inner: matches!(m.archive().find_file(n), Ok(Some(_))), data: m.read_file(n).ok().map(Arc::new) })
+        .collect();
+    let mut listed: Vec<String> = m.list().map(|l| l.into_iter().map(|e| e.name).collect()).unwrap_or_default();
+    listed.sort();
+    MutState { names, listed }
+}
+
+/// One mutation through the C API and the same one through the Rust API on the shadow; returns (C answer, Rust answer).
+fn mx_apply(cx: &Ctx, w: &World, leg: &MutLeg, shadow: &mut MutableArchive, func: &'static str, name: usize, name2: usize, src: usize, flags: u32, comp: u32) -> (bool, bool, u64, u64) {
+    let a = leg.arch;
+    let (n1, n2) = (leg.names[name].clone(), leg.names[name2].clone());
+    let sp = p2s(&w.dir.join(format!("src{src}.dat")));
+    let (c1, c2, cs_) = (cs(&n1), cs(&n2), cs(&sp));
+    let (ok, t0, t1) = match func {
+        "SFileAddFileEx" => cx.callb(func, a, src as i64, &n1, || unsafe { SFileAddFileEx(hh(a), cs_.as_ptr(), c1.as_ptr(), flags, comp, 0) }),
+        "SFileAddFile" => cx.callb(func, a, src as i64, &n1, || unsafe { SFileAddFile(hh(a), cs_.as_ptr(), c1.as_ptr(), flags) }),
+        "SFileRemoveFile" => cx.callb(func, a, 0, &n1, || unsafe { SFileRemoveFile(hh(a), c1.as_ptr(), 0) }),
+        "SFileRenameFile" => cx.callb(func, a, 0, &n1, || unsafe { SFileRenameFile(hh(a), c1.as_ptr(), c2.as_ptr()) }),
+        "SFileCompactArchive" => cx.callb(func, a, 0, "", || unsafe { SFileCompactArchive(hh(a), ptr::null(), false) }),
+        _ => cx.callb("SFileFlushArchive", a, 0, "", || unsafe { SFileFlushArchive(hh(a)) }),
+    };
+    let rust = match func {
+        "SFileAddFileEx" => shadow.add_file(&sp, &n1, add_opts(flags, comp)).is_ok(),
+        "SFileAddFile" => shadow.add_file(&sp, &n1, add_opts(flags, 0x02)).is_ok(),
+        "SFileRemoveFile" => shadow.remove_file(&n1).is_ok(),
+        "SFileRenameFile" => shadow.rename_file(&n1, &n2).is_ok(),
+        "SFileCompactArchive" => shadow.compact().is_ok(),
+        _ => shadow.flush().is_ok(),
+    };
+    (ok, rust, t0, t1)
+}
+
+/// The mutating thread: one mutation after the other until the other threads are through (or the script is).
+fn mutator_body(cx: &Ctx, w: &World, leg: &MutLeg, mut shadow: MutableArchive, mut rng: Rng, done: &AtomicUsize, n: usize, spin: bool) {
+    let mut j = 0;
+    while j < 60 && done.load(Ordering::SeqCst) < n {
+        if spin {
+            match rng.below(4) {
+                0 => std::thread::yield_now(),
+                1 => std::thread::sleep(Duration::from_micros(20 + rng.below(150))),
+                _ => {}
+            }
+        }
+        let k = rng.usize(MX_TOUCHED);
+        let t = MX_STABLE + k;
+        let r = MX_STABLE + MX_TOUCHED + k.min(1);
+        let src = [1usize, 2, 3][rng.usize(3)];
+        let (func, name, name2, flags, comp): (&'static str, usize, usize, u32, u32) = match rng.below(12) {
+            0..=2 => ("SFileAddFileEx", t, t, if rng.chance(1, 4) { 0x8001_0000 } else { 0x8000_0000 }, [0u32, 0x02, 0x10][rng.usize(3)]),
+            3 => ("SFileAddFile", if k < 2 && rng.bool() { r } else { t }, t, 0, 0),
+            4 => ("SFileRemoveFile", t, t, 0, 0),
+            5 => ("SFileRemoveFile", if k < 2 { r } else { t }, t, 0, 0),
+            6 | 7 if k < 2 => {
+                if rng.bool() { ("SFileRenameFile", t, r, 0, 0) } else { ("SFileRenameFile", r, t, 0, 0) }
+            }
+            8 => ("SFileFlushArchive", t, t, 0, 0),
+            9 => ("SFileCompactArchive", t, t, 0, 0),
+            10 => {
+                let nn = MX_STABLE + MX_TOUCHED + 2 + rng.usize(2);
+                if rng.bool() { ("SFileAddFileEx", nn, nn, 0, 0) } else { ("SFileRemoveFile", nn, nn, 0, 0) }
+            }
+            _ => ("SFileAddFileEx", t, t, 0x8000_0000, 0),
+        };
+        let (ok, rust, t0, t1) = mx_apply(cx, w, leg, &mut shadow, func, name, name2, src, flags, comp);
+        if ok != rust {
+            cx.complain(&format!("agreement-modify|{func}|threads|mutating-thread|c={ok},rust={rust}"), format!("mutation {} of the run: {func}({:?}) = {ok} through the C API, {rust} through MutableArchive on an identical copy", j + 1, leg.names[name]));
+        }
+        let st = mx_snapshot(&mut shadow, &leg.names);
+        leg.states.lock().unwrap().push(st);
+        leg.windows.lock().unwrap().push((t0, t1, format!("{func}({:?}{}, src{src}, flags={flags:#x}, comp={comp:#x})->{ok}", leg.names[name], if func == "SFileRenameFile" { format!("->{:?}", leg.names[name2]) } else { String::new() })));
+        j += 1;
+    }
+    drop(shadow);
+}
+
+/// One question of a reading thread about the writable archive that is being mutated.
+fn mx_reader_op(cx: &Ctx, w: &World, leg: &MutLeg, rng: &mut Rng, i: u32, my_closed: &mut Vec<(usize, K)>) {
+    let a = leg.arch;
+    let k = match rng.below(20) {
+        0..=6 => rng.usize(MX_STABLE),
+        7..=16 => MX_STABLE + rng.usize(MX_TOUCHED + 2),
+        _ => MX_STABLE + MX_TOUCHED + 2 + rng.usize(3),
+    };
+    let name = leg.names[k].clone();
+    let cn = cs(&name);
+    let push = |what: &'static str, t0: u64, t1: u64, ok: bool, data: Option<Vec<u8>>, listed: Option<Vec<String>>| leg.obs.lock().unwrap().push(MutObs { th: cx.th, what, name: k, t0, t1, ok, data, listed });
+    match rng.below(16) {
+        0..=4 => {
+            let ok = cx.has(a, &name);
+            let (t0, t1) = cx.last_times();
+            push("has", t0, t1, ok, None, None);
+        }
+        5..=9 => {
+            let f = cx.open_file(a, &name);
+            let (t0, t1) = cx.last_times();
+            if f == 0 {
+                push("open", t0, t1, false, None, None);
+                return;
+            }
+            cx.reg(f, HInfo { kind: K::File, arch: a, content: None, shared: false, expected_names: None });
+            let b = Guarded::new(name.len() + 1, cx.sh.exact);
+            let okn = cx.call("SFileGetFileName", f, 0, 0, &name, || unsafe { SFileGetFileName(hh(f), b.ptr() as *mut c_char) }, |ok| (*ok, 0, [0; 8]));
+            cx.canary(&b, "SFileGetFileName");
+            if !okn || &b.bytes()[..name.len()] != name.as_bytes() || b.bytes()[name.len()] != 0 {
+                cx.complain("agreement-name|SFileGetFileName|threads|private-handle|name!=opened-name", format!("thread {}: SFileGetFileName on a private handle of {name:?} = {okn}, buffer does not hold that name", cx.th));
+            }
+            let (okr, data) = cx.read(f, 8192);
+            let s = cx.size(f);
+            if okr && s as usize != data.len() {
+                cx.complain("agreement-size|SFileGetFileSize|threads|private-handle-on-mutated-archive", format!("thread {}: {name:?}: size {s}, but a read of 8192 from the start returned {} bytes", cx.th, data.len()));
+            }
+            cx.close_file(f);
+            my_closed.push((f, K::File));
+            push("open", t0, t1, true, if okr { Some(data) } else { None }, None);
+        }
+        10..=11 => {
+            let dest = p2s(&w.dir.join(format!("mxout_{}_{i}.bin", cx.th)));
+            let cd = cs(&dest);
+            let (ok, t0, t1) = cx.callb("SFileExtractFile", a, 0, &name, || unsafe { SFileExtractFile(hh(a), cn.as_ptr(), cd.as_ptr(), 0) });
+            let data = if ok { std::fs::read(&dest).ok() } else { None };
+            let _ = std::fs::remove_file(&dest);
+            push("extract", t0, t1, ok, data, None);
+        }
+        12..=13 => {
+            let flags = [0u32, 1, 4, 6][rng.usize(4)];
+            let (ok, t0, t1) = cx.callb("SFileVerifyFile", a, flags as i64, &name, || unsafe { SFileVerifyFile(hh(a), cn.as_ptr(), flags) });
+            push("verify", t0, t1, ok, None, None);
+        }
+        14 => {
+            let (f, first) = cx.find_first(a);
+            let (t0, t1) = cx.last_times();
+            if f != 0 {
+                cx.reg(f, HInfo { kind: K::Find, arch: a, content: None, shared: false, expected_names: None });
+                let mut seen = vec![first];
+                let mut complete = false;
+                for _ in 0..64 {
+                    match cx.find_next(f) {
+                        Some(n) => seen.push(n),
+                        None => {
+                            complete = SFileGetLastError() == 18;
+                            break;
+                        }
+                    }
+                }
+                cx.find_close(f);
+                my_closed.push((f, K::Find));
+                if complete {
+                    seen.sort();
+                    push("find", t0, t1, true, None, Some(seen));
+                }
+            }
+        }
+        _ => {
+            let flags = [0x10u32, 0x30, 0x01][rng.usize(3)];
+            cx.callb("SFileVerifyArchive", a, flags as i64, "", || unsafe { SFileVerifyArchive(hh(a), flags) });
+        }
+    }
+}
+
+/// Every answer about the mutated archive must be the Rust API's answer in one of the states the archive can have been in
+/// while the call ran: after the mutations that had returned before it was called, up to those called before it returned.
+fn mx_judge(c: &mut Case, leg: &MutLeg) {
+    let states = leg.states.lock().unwrap();
+    let windows = leg.windows.lock().unwrap();
+    let obs = leg.obs.lock().unwrap();
+    c.count("mutrace_mutations", windows.len() as u64);
+    c.count("mutrace_states_of_the_rust_api", states.len() as u64);
+    c.count("mutrace_mutations_that_succeeded", windows.iter().filter(|w| w.2.ends_with("->true")).count() as u64);
+    c.count("mutrace_opens_that_succeeded", obs.iter().filter(|o| o.what == "open" && o.ok).count() as u64);
+    c.count("mutrace_opens_of_untouched_names", obs.iter().filter(|o| o.what == "open" && o.name < MX_STABLE).count() as u64);
+    c.count("mutrace_states_in_which_the_rust_api_cannot_read_an_untouched_name", states.iter().filter(|s| s.names[..MX_STABLE].iter().any(|x| !x.exists || x.data.is_none())).count() as u64);
+    if states.len() != windows.len() + 1 {
+        c.inconclusive("mutation leg: states and mutations out of step");
+        return;
+    }
+    for o in obs.iter() {
+        let lo = windows.iter().filter(|w| w.1 < o.t0).count();
+        let hi = windows.iter().filter(|w| w.0 <= o.t1).count();
+        c.count("mutrace_answers_judged", 1);
+        c.count(&format!("mutrace_answers_judged|{}", o.what), 1);
+        c.count(if o.name < MX_STABLE { "mutrace_answers_about_untouched_names" } else { "mutrace_answers_about_touched_names" }, 1);
+        if hi > lo {
+            c.count("mutrace_answers_overlapping_a_mutation", 1);
+        }
+        let cand: Vec<&MutState> = (lo..=hi).map(|j| &states[j]).collect();
+        let st = |s: &MutState| s.names[o.name].clone();
+        let (func, clause, good): (&str, &str, bool) = match o.what {
+            "has" => ("SFileHasFile", "agreement-exists", cand.iter().any(|s| st(s).exists == o.ok)),
+            "open" => {
+                let openable = |s: &MutState| st(s).exists && st(s).data.is_some();
+                if !o.ok {
+                    ("SFileOpenFileEx", "agreement-exists", cand.iter().any(|s| !openable(s)))
+                } else if let Some(d) = &o.data {
+                    c.count("mutrace_bytes_compared", d.len() as u64);
+                    if cand.iter().any(|s| openable(s)) {
+                        ("SFileReadFile", "agreement-bytes", cand.iter().any(|s| openable(s) && st(s).data.as_deref() == Some(d)))
+                    } else {
+                        ("SFileOpenFileEx", "agreement-exists", false)
+                    }
+                } else {
+                    ("SFileOpenFileEx", "agreement-exists", cand.iter().any(|s| openable(s)))
+                }
+            }
+            "extract" => {
+                if let (true, Some(d)) = (o.ok, &o.data) {
+                    c.count("mutrace_bytes_compared", d.len() as u64);
+                    ("SFileExtractFile", "agreement-bytes", cand.iter().any(|s| st(s).data.as_deref() == Some(d)))
+                } else if o.ok {
+                    ("SFileExtractFile", "agreement-bytes", true) // the extracted file could not be read back: nothing to compare
+                } else {
+                    ("SFileExtractFile", "agreement-exists", cand.iter().any(|s| st(s).data.is_none()))
+                }
+            }
+            "verify" => ("SFileVerifyFile", "agreement-exists", !o.ok || cand.iter().any(|s| st(s).exists || st(s).inner)),
+            _ => ("SFileFindFirstFile", "agreement-enum", cand.iter().any(|s| Some(&s.listed) == o.listed.as_ref())),
+        };
+        if !good {
+            let kind = if o.name < MX_STABLE { "name-no-mutation-touches" } else { "name-under-mutation" };
+            let muts: Vec<String> = windows.iter().enumerate().filter(|(j, _)| *j + 1 > lo && *j < hi).map(|(j, w)| format!("#{} {} [{}..{}]", j + 1, w.2, w.0, w.1)).collect();
+            c.violate(
+                format!("C19|{clause}|{func}|threads|racing-mutation|{kind}|answer-fits-no-state-the-archive-was-in-during-the-call"),
+                format!("thread {}: {} of {:?} on the writable archive answered {}{} during [{}..{}]; the Rust API on an identical copy gives a different answer in each of the {} state(s) between the mutations finished before the call and those begun before its return", o.th, o.what, leg.names[o.name], o.ok, o.data.as_ref().map(|d| format!(" ({} bytes)", d.len())).unwrap_or_default(), o.t0, o.t1, hi - lo + 1),
+                json!({"states_considered": [lo, hi], "mutations_in_flight": muts, "rust_answers": cand.iter().map(|s| json!({"exists": st(s).exists, "readable_bytes": st(s).data.as_ref().map(|d| d.len())})).collect::<Vec<_>>()}),
+            );
+        }
+    }
 }
 
 fn thread_body(cx: &Ctx, w: &World, plan: &Plan, mut rng: Rng) {
@@ -285,7 +592,16 @@ fn thread_body(cx: &Ctx, w: &World, plan: &Plan, mut rng: Rng) {
             cx.close_file(w.shared_files[1]); // second close of the same handle
             continue;
         }
-        match rng.below(100) {
+        let mut roll = rng.below(100);
+        if let Some(leg) = &w.mleg {
+            if matches!(roll, 30..=34 | 87..=89) {
+                mx_reader_op(cx, w, leg, &mut rng, i, &mut my_closed);
+                continue;
+            }
+        } else if matches!(roll, 87..=89) {
+            roll = 84;
+        }
+        match roll {
             0..=34 => {
                 // cursor operations on a shared file handle (shared archive or victim archive)
                 let pool: Vec<usize> = w.shared_files.iter().chain(w.victim_files.iter()).copied().collect();
@@ -413,6 +729,35 @@ fn thread_body(cx: &Ctx, w: &World, plan: &Plan, mut rng: Rng) {
             }
             76..=83 => {
                 // private archive handle on a file nobody else touches through this handle
+                if rng.chance(1, 4) {
+                    // an archive of this thread's own, made by SFileCreateArchive (the handle it returns is a read-only one)
+                    let path = p2s(&w.dir.join(format!("own_{t}_{i}.mpq")));
+                    let cp = cs(&path);
+                    let mut out: HANDLE = ptr::null_mut();
+                    let ok = cx.call("SFileCreateArchive", 0, 2, 16, &path, || unsafe { SFileCreateArchive(cp.as_ptr(), 2, 16, &mut out) }, |ok| (*ok, 0, [0; 8]));
+                    let a = out as usize;
+                    if let Some(e) = cx.sh.logs[t as usize].lock().unwrap().last_mut() {
+                        e.r = a as i64;
+                    }
+                    if ok && a != 0 {
+                        cx.reg(a, HInfo { kind: K::Arch, arch: 0, content: None, shared: false, expected_names: None });
+                        let want = Archive::open(&path).and_then(|x| x.find_file("(listfile)")).map(|x| x.is_some());
+                        let got = cx.has(a, "(listfile)");
+                        cx.sh.compared.fetch_add(1, Ordering::Relaxed);
+                        if let Ok(want) = want {
+                            if want != got {
+                                cx.complain(&format!("agreement-exists|SFileHasFile|threads|archive-made-by-SFileCreateArchive|c={got},rust={want}"), format!("thread {t}: (listfile) in a freshly created archive: C API {got}, Rust API {want}"));
+                            }
+                        } else {
+                            cx.complain("agreement-open|SFileCreateArchive|threads|created-archive|c=success,rust=error", format!("thread {t}: SFileCreateArchive returned a handle but Archive::open fails on the result"));
+                        }
+                        cx.close_archive(a);
+                        my_closed.push((a, K::Arch));
+                    } else if ok {
+                        cx.complain("id-unique|SFileCreateArchive|threads|null-handle-on-success", format!("thread {t}: SFileCreateArchive reported success with a null handle"));
+                    }
+                    continue;
+                }
                 let path = p2s(&w.dir.join(if rng.bool() { FX_B } else { FX_D }));
                 let a = cx.open_archive(&path);
                 if a != 0 {
@@ -611,7 +956,7 @@ fn must_succeed_when_live(e: &Ev) -> bool {
     match e.func {
         "SFileReadFile" | "SFileGetFileSize" | "SFileGetFileInfo" | "SFileCloseFile" | "SFileFindClose" | "SFileCloseArchive" | "SFileEnumFiles" | "SFileGetArchiveName" | "SFileFindFirstFile" => true,
         "SFileSetFilePointer" => true,
-        "SFileHasFile" | "SFileOpenFileEx" => !e.name.starts_with("absent") && !e.name.contains("\\a"),
+        "SFileHasFile" | "SFileOpenFileEx" => !e.name.starts_with("absent") && !e.name.contains("\\a") && !e.name.starts_with("mx\\"),
         "SFileFindNextFile" => e.r != 18, // running out of entries is not a handle failure
         _ => false,
     }
@@ -624,7 +969,7 @@ fn check_log(c: &mut Case, evs: &[Ev], handles: &HashMap<usize, HInfo>, extra_ha
     };
     // ---- (iii) unique ids
     let mut opens: BTreeMap<usize, Vec<&Ev>> = BTreeMap::new();
-    for e in evs.iter().filter(|e| e.ok && matches!(e.func, "SFileOpenArchive" | "SFileOpenFileEx" | "SFileFindFirstFile" | "SFileCreateArchive2")) {
+    for e in evs.iter().filter(|e| e.ok && matches!(e.func, "SFileOpenArchive" | "SFileOpenFileEx" | "SFileFindFirstFile" | "SFileCreateArchive2" | "SFileCreateArchive")) {
         opens.entry(e.r as usize).or_default().push(e);
     }
     c.count("ids_issued_checked_unique", opens.len() as u64);
@@ -822,9 +1167,9 @@ fn one_run(c: &mut Case, idx: u64, plan: &Plan, rng: &mut Rng, exact: bool, stal
     let sh = Arc::new(Shared {
         base: Instant::now(),
         progress: AtomicU64::new(0),
-        inflight: (0..=n).map(|_| AtomicU64::new(0)).collect(),
-        inflight_what: (0..=n).map(|_| Mutex::new(String::new())).collect(),
-        logs: (0..=n).map(|_| Mutex::new(Vec::new())).collect(),
+        inflight: (0..=n + 1).map(|_| AtomicU64::new(0)).collect(),
+        inflight_what: (0..=n + 1).map(|_| Mutex::new(String::new())).collect(),
+        logs: (0..=n + 1).map(|_| Mutex::new(Vec::new())).collect(),
         handles: Mutex::new(HashMap::new()),
         complaints: Mutex::new(vec![]),
         exact,
@@ -892,25 +1237,92 @@ fn one_run(c: &mut Case, idx: u64, plan: &Plan, rng: &mut Rng, exact: bool, stal
         fn_names.remove(p);
     }
     main.reg(shared_find, HInfo { kind: K::Find, arch: a_arch, content: None, shared: true, expected_names: Some(Arc::new(fn_names)) });
-    let world = Arc::new(World { dir: dir.clone(), s_arch, v_arch, a_arch, m_arch, shared_files, victim_files, shared_find, s_names, a_names });
+    // ---- the writable archive of the mutation leg (V1 / V2 by turns) with its shadow on a byte-identical copy
+    let mut mleg: Option<Arc<MutLeg>> = None;
+    let mut mshadow: Option<MutableArchive> = None;
+    if plan.with_mutable {
+        let version = 1 + (idx / 3 % 2) as u32;
+        let info = SFILE_CREATE_MPQ { cb_size: std::mem::size_of::<SFILE_CREATE_MPQ>() as u32, mpq_version: version, user_data: ptr::null_mut(), cb_user_data: 0, stream_flags: 0, file_flags_1: 1, file_flags_2: 0, file_flags_3: 0, attr_flags: 0, sector_size: 3, raw_chunk_size: 0, max_file_count: 0 };
+        let xpath = p2s(&dir.join("threads_mx.mpq"));
+        let cp = cs(&xpath);
+        let mut out: HANDLE = ptr::null_mut();
+        main.call("SFileCreateArchive2", 0, version as i64, 0, "threads_mx.mpq", || unsafe { SFileCreateArchive2(cp.as_ptr(), &info, &mut out) }, |ok| (*ok, 0, [0; 8]));
+        let x_arch = out as usize;
+        if let Some(e) = sh.logs[n].lock().unwrap().last_mut() {
+            e.r = x_arch as i64;
+        }
+        let spath = format!("{xpath}.shadow");
+        let shadow = if x_arch != 0 { std::fs::copy(&xpath, &spath).ok().and_then(|_| MutableArchive::open(&spath).ok()) } else { None };
+        match shadow {
+            Some(mut shadow) => {
+                main.reg(x_arch, HInfo { kind: K::Arch, arch: 0, content: None, shared: true, expected_names: None });
+                let leg = MutLeg { arch: x_arch, names: mx_names(), states: Mutex::new(vec![]), windows: Mutex::new(vec![]), obs: Mutex::new(vec![]) };
+                let tmp = World { dir: dir.clone(), s_arch, v_arch, a_arch, m_arch, shared_files: vec![], victim_files: vec![], shared_find: 0, s_names: s_names.clone(), a_names: a_names.clone(), mleg: None };
+                let mut good = true;
+                for k in 0..MX_STABLE + MX_TOUCHED {
+                    let src = if k < MX_STABLE { MX_SRC[k] } else { 2 };
+                    let (ok, rust, _, _) = mx_apply(&main, &tmp, &leg, &mut shadow, "SFileAddFileEx", k, k, src, 0, if k % 2 == 0 { 0 } else { 0x02 });
+                    good &= ok && rust;
+                }
+                let (ok, rust, _, _) = mx_apply(&main, &tmp, &leg, &mut shadow, "SFileFlushArchive", 0, 0, 0, 0, 0);
+                good &= ok && rust;
+                if good {
+                    leg.states.lock().unwrap().push(mx_snapshot(&mut shadow, &leg.names));
+                    if std::env::var_os("C19_TRACE").is_some() {
+                        let st = leg.states.lock().unwrap();
+                        for (k, x) in st[0].names.iter().enumerate() {
+                            eprintln!("C19-TRACE set-up state: {:?} exists={} inner={} readable={:?}", leg.names[k], x.exists, x.inner, x.data.as_ref().map(|d| d.len()));
+                        }
+                        eprintln!("C19-TRACE set-up list: {:?}", st[0].listed);
+                    }
+                    mleg = Some(Arc::new(leg));
+                    mshadow = Some(shadow);
+                } else {
+                    c.count("mutrace_setup_refused", 1);
+                    main.close_archive(x_arch);
+                }
+            }
+            None => {
+                c.count("mutrace_setup_refused", 1);
+                if x_arch != 0 {
+                    main.reg(x_arch, HInfo { kind: K::Arch, arch: 0, content: None, shared: true, expected_names: None });
+                    main.close_archive(x_arch);
+                }
+            }
+        }
+    }
+    let world = Arc::new(World { dir: dir.clone(), s_arch, v_arch, a_arch, m_arch, shared_files, victim_files, shared_find, s_names, a_names, mleg: mleg.clone() });
 
     // ---- run
-    let barrier = Arc::new(Barrier::new(n));
+    let n_all = n + mleg.is_some() as usize;
+    let barrier = Arc::new(Barrier::new(n_all));
     let done = Arc::new(AtomicUsize::new(0));
+    let finished = Arc::new(AtomicUsize::new(0));
     let mut joins = vec![];
+    if let (Some(leg), Some(shadow)) = (mleg.clone(), mshadow.take()) {
+        let (sh2, w2, b2, d2, f2, spin) = (sh.clone(), world.clone(), barrier.clone(), done.clone(), finished.clone(), plan.spin);
+        let mrng = Rng::for_case(rng.next_u64(), idx, 0x4D58);
+        joins.push(std::thread::spawn(move || {
+            let cx = Ctx { sh: sh2, th: n as u32 + 1 };
+            b2.wait();
+            mutator_body(&cx, &w2, &leg, shadow, mrng, &d2, n, spin);
+            f2.fetch_add(1, Ordering::SeqCst);
+        }));
+    }
     for t in 0..n {
-        let (sh2, w2, p2, b2, d2) = (sh.clone(), world.clone(), plan.clone(), barrier.clone(), done.clone());
+        let (sh2, w2, p2, b2, d2, f2) = (sh.clone(), world.clone(), plan.clone(), barrier.clone(), done.clone(), finished.clone());
         let trng = Rng::for_case(rng.next_u64(), idx, t as u64 + 1);
         joins.push(std::thread::spawn(move || {
             let cx = Ctx { sh: sh2, th: t as u32 };
             b2.wait();
             thread_body(&cx, &w2, &p2, trng);
             d2.fetch_add(1, Ordering::SeqCst);
+            f2.fetch_add(1, Ordering::SeqCst);
         }));
     }
     let mut last = (sh.progress.load(Ordering::SeqCst), Instant::now());
     let mut stalled = false;
-    while done.load(Ordering::SeqCst) < n {
+    while finished.load(Ordering::SeqCst) < n_all {
         std::thread::sleep(Duration::from_millis(20));
         let p = sh.progress.load(Ordering::SeqCst);
         if p != last.0 {
@@ -925,7 +1337,7 @@ fn one_run(c: &mut Case, idx: u64, plan: &Plan, rng: &mut Rng, exact: bool, stal
     if stalled {
         let now = sh.base.elapsed().as_nanos() as u64;
         let mut stuck = vec![];
-        for t in 0..n {
+        for t in (0..n).chain(n + 1..n + 2) {
             let since = sh.inflight[t].load(Ordering::SeqCst);
             if since != 0 {
                 stuck.push(json!({"thread": t, "in": sh.inflight_what[t].lock().map(|s| s.clone()).unwrap_or_default(), "for_ms": (now - since) / 1_000_000}));
@@ -949,6 +1361,15 @@ fn one_run(c: &mut Case, idx: u64, plan: &Plan, rng: &mut Rng, exact: bool, stal
     main.close_archive(a_arch);
     if m_arch != 0 {
         main.close_archive(m_arch);
+    }
+    if let Some(leg) = &mleg {
+        // a last look at every name once all mutations are through, then the archive goes
+        for k in 0..leg.names.len() {
+            let ok = main.has(leg.arch, &leg.names[k]);
+            let (t0, t1) = main.last_times();
+            leg.obs.lock().unwrap().push(MutObs { th: n as u32, what: "has", name: k, t0, t1, ok, data: None, listed: None });
+        }
+        main.close_archive(leg.arch);
     }
     main.close_archive(v_arch);
     for f in world.shared_files.iter().chain(world.victim_files.iter()) {
@@ -979,6 +1400,9 @@ fn one_run(c: &mut Case, idx: u64, plan: &Plan, rng: &mut Rng, exact: bool, stal
     let handles = sh.handles.lock().unwrap().clone();
     c.count("handles_tracked", handles.len() as u64);
     check_log(c, &evs, &handles, hashes);
+    if let Some(leg) = &mleg {
+        mx_judge(c, leg);
+    }
     for (sig, text) in sh.complaints.lock().unwrap().iter() {
         c.violate(format!("C19|{sig}"), text.clone(), json!({"threads": n}));
     }
